@@ -118,6 +118,74 @@ def wide_level_cases(viol):
     return n_cases
 
 
+def sparse_system_cases(viol, rng, mods):
+    """Model/SparseAsm.v (about which C01_sparse_backend_* are proved) against what step_voltage_implicit_with_jax_spsolve
+    hands to spsolve: the call is intercepted, the matrix spsolve solves with is rebuilt from (data, indices, indptr) read
+    as CSR (what jax's spsolve does) and compared entry by entry with sp_dense / sp_rhs_list in exact rationals.  The
+    conductances are drawn independently per directed edge, so a transposed or mis-indexed entry shows."""
+    import re
+    import numpy as np
+    import jax.numpy as jnp
+    import hineslib
+    import cablelib
+    import coqeval
+    import jaxley.solver_voltage as sv
+    exprs, real = [], []
+    q = cablelib.q
+    ql = lambda xs: "[" + "; ".join(q(x) for x in xs) + "]"
+    red = "(fun x => (Qnum (Qred x), Zpos (Qden (Qred x))))"
+    for case, m in mods:
+        st = hineslib.structure(m)
+        if st["ncomp"] + len(st["par_inds"]) > 16:
+            continue
+        g, v0, vt, ct, dtq = hineslib.random_values(rng, st)
+        cap = {}
+        orig = sv.jax_spsolve
+
+        def fake(data, indices, indptr, b, *a, **k):
+            cap["args"] = (np.asarray(data, dtype=float), np.asarray(indices), np.asarray(indptr), np.asarray(b, dtype=float))
+            return orig(data, indices, indptr, b, *a, **k)
+        sv.jax_spsolve = fake
+        try:
+            ce = m._comp_edges
+            out = sv.step_voltage_implicit_with_jax_spsolve(
+                voltages=jnp.asarray([float(x) for x in v0]), voltage_terms=jnp.asarray([float(x) for x in vt]),
+                constant_terms=jnp.asarray([float(x) for x in ct]), axial_conductances=jnp.asarray([float(x) for x in g]),
+                data_inds=m._data_inds, indices=m._indices_jax_spsolve, indptr=m._indptr_jax_spsolve,
+                sinks=np.asarray(ce["sink"].to_list()), delta_t=float(dtq), n_nodes=m._n_nodes, internal_node_inds=m._internal_node_inds)
+        finally:
+            sv.jax_spsolve = orig
+        data, indices, indptr, b = cap["args"]
+        n = len(b)
+        A = np.zeros((n, n))
+        for r in range(n):
+            for k in range(indptr[r], indptr[r + 1]):
+                A[r, indices[k]] += data[k]
+        es = "[" + "; ".join(f"(mkedge {a}%nat {bb}%nat {t}%nat {q(x)})" for (a, bb, t), x in zip(st["edges"], g)) + "]"
+        exprs.append(f"(map (map {red}) (sp_dense Q Qplus Qminus Qmult 0 1 {n}%nat {st['ncomp']}%nat {es} (fun i => nth i {ql(vt)} 0) {q(dtq)}), "
+                     f"map {red} (sp_rhs_list Q Qplus Qmult 0 {n}%nat {st['ncomp']}%nat (fun i => nth i {ql(v0)} 0) (fun i => nth i {ql(ct)} 0) {q(dtq)}))")
+        real.append((case, A, b, n, [float(x) for x in np.asarray(out)], st, g, v0, vt, ct, dtq))
+    outs = coqeval.coq_eval(["HinesArr", "SparseAsm"], exprs, prelude="Local Open Scope Q_scope.", shard=4)
+    for (case, A, b, n, out, st, g, v0, vt, ct, dtq), o in zip(real, outs):
+        ints = [int(x) for x in re.findall(r"-?\d+", o.replace("%Z", ""))]
+        vals = [ints[i] / ints[i + 1] for i in range(0, len(ints) - 1, 2)]
+        if len(vals) != n * n + n:
+            viol.append(dict(case, kind="Model/SparseAsm.v and the jax.sparse backend disagree on the number of nodes", nodes_code=n, model_values=len(vals), no_failing_input_found=True))
+            continue
+        Am = np.asarray(vals[: n * n]).reshape(n, n)
+        bm = np.asarray(vals[n * n:])
+        if np.max(np.abs(Am - A)) > 1e-12 * max(1.0, np.max(np.abs(A))) or np.max(np.abs(bm - b)) > 1e-12 * max(1.0, np.max(np.abs(b))):
+            i, j = np.unravel_index(np.argmax(np.abs(Am - A)), A.shape)
+            viol.append(dict(case, kind="the linear system the jax.sparse backend hands to spsolve differs from Model/SparseAsm.v (theorems C01_sparse_backend_* are about the model)",
+                             entry=[int(i), int(j)], code=float(A[i, j]), model=float(Am[i, j]), rhs_code=[float(x) for x in b][:12], rhs_model=[float(x) for x in bm][:12],
+                             edges=st["edges"], g=[float(x) for x in g], dt=float(dtq)))
+        # ... and the solution spsolve returns solves that system (backward error)
+        z = np.linalg.solve(A, b)
+        if np.max(np.abs(np.asarray(out) - z[: len(out)])) > 1e-8 * max(1.0, np.max(np.abs(z))):
+            viol.append(dict(case, kind="jax.sparse returns voltages that do not solve the system it assembled", got=out, solution=[float(x) for x in z[: len(out)]]))
+    return len(real)
+
+
 def run(ctx):
     import numpy as np
     import jaxley as jx
@@ -318,6 +386,7 @@ def run(ctx):
     nasm = 0
     necond = 0
     nidxf = 0
+    nsparse = 0
     try:
         import hineslib
         from jaxley.solver_voltage import step_voltage_implicit_with_jaxley_spsolve  # noqa: F401
@@ -485,6 +554,7 @@ def run(ctx):
                                  code=real_cells, model=model_cells, no_failing_input_found=True))
             if outs4[2 * nf + k] != "true":
                 viol.append(dict(case, kind="check_schedule rejects the forest model of this network (contradicts theorem C01_checker_accepts_every_network: model or build broken)", no_failing_input_found=True))
+        nsparse = sparse_system_cases(viol, rng, mods)
     except Exception as ex:
         import traceback
         viol.append({"kind": "array-level correspondence could not be evaluated", "error": repr(ex)[:500], "trace": traceback.format_exc()[-600:], "no_failing_input_found": True})
@@ -507,7 +577,7 @@ def run(ctx):
     return {"evaluations": evals, "distinct_nontrivial": len(distinct),
             "rule": "one voltage step of every enumerated sorted tree (<=4/5 branches) x sampled compartment counts {1,2,3} + random larger trees, heterogeneous dyadic parameters, optional stimulus, dt in {0.025 .. 1e9}, bwd/CN x 3 backends + fwd on cables + networks; each output checked by exact backward error against an independent physical assembly and against Model/Cable.v in exact rationals; distinct by (tree, counts)",
             "samples": samples, "violations": viol[:20], "traces_validated_against_impl": nmodel,
-            "cases_with_padded_parent_branch": ncrit, "array_level_modules": narr, "index_structures_compared": nidx, "assembly_index_lists_compared": nasm, "edge_conductance_tables_compared": necond, "network_index_structures_compared": nidxf}
+            "cases_with_padded_parent_branch": ncrit, "array_level_modules": narr, "index_structures_compared": nidx, "assembly_index_lists_compared": nasm, "edge_conductance_tables_compared": necond, "network_index_structures_compared": nidxf, "sparse_systems_compared": nsparse}
 
 
 def replay(ctx, case):
